@@ -563,7 +563,7 @@ class RadioSignal(Signal):
 
     @freq_align.setter
     def freq_align(self, freq_align):
-        if freq_align in {"bottom", "center", "top"}:
+        if isinstance(freq_align, str) and freq_align in {"bottom", "center", "top"}:
             self._freq_align = "center" if self.nchan % 2 else freq_align
         else:
             choices = "{'bottom', 'center', 'top'}"
@@ -877,7 +877,7 @@ class DualPolarizationSignal(BasebandSignal):
 
     @pol_type.setter
     def pol_type(self, pol_type):
-        if pol_type in {"linear", "circular"}:
+        if isinstance(pol_type, str) and pol_type in {"linear", "circular"}:
             self._pol_type = pol_type
         else:
             raise ValueError("pol_type must be in {'linear', 'circular'}")
